@@ -1,4 +1,7 @@
 """Checks decided with XpmConfig.tla: C01 C02 C03 C14 C17 C20(identifier part)"""
+import os as _os
+
+REPO_SRC = _os.environ.get("XV_REPO_SRC", "/repo/src")
 import copy
 import hashlib
 import json
@@ -209,7 +212,7 @@ def schema_crosscheck(rep, prop):
     experimaestro derives from the live classes"""
     tmp = tempfile.mktemp(suffix=".tla", dir=str(tlc.workdir("schema")))
     p = subprocess.run(["/venv/bin/python", "-W", "ignore", str(VERIF / "tools" / "gen_schema.py"), tmp],
-                       env=dict(os.environ, PYTHONPATH="/repo/src:/verif"), capture_output=True, text=True)
+                       env=dict(os.environ, PYTHONPATH=REPO_SRC + ":/verif"), capture_output=True, text=True)
     if p.returncode != 0:
         rep.violation(f"{prop}/schema/exception", "the schema classes cannot be introspected: " + p.stderr[-300:], None)
         return
@@ -449,7 +452,7 @@ def hashseeds(rep, n, sd):
         f = tempfile.mktemp(suffix=".json", dir=str(tlc.workdir("hs")))
         Path(f).write_text(json.dumps(gs))
         p = subprocess.run(["/venv/bin/python", "-W", "ignore", "-c", code, f, hs],
-                           env=dict(os.environ, PYTHONPATH="/repo/src:/verif", PYTHONHASHSEED=hs, XPM_VERIF="1"),
+                           env=dict(os.environ, PYTHONPATH=REPO_SRC + ":/verif", PYTHONHASHSEED=hs, XPM_VERIF="1"),
                            capture_output=True, text=True, cwd=str(VERIF))
         import shutil
 
@@ -592,7 +595,7 @@ def evolution(rep):
     Path(f).write_text(json.dumps(gs))
     for gen in ("1", "2"):
         p = subprocess.run(["/venv/bin/python", "-W", "ignore", "-c", code, f, gen],
-                           env=dict(os.environ, PYTHONPATH="/repo/src:/verif", XPM_VERIF="1"), capture_output=True, text=True, cwd=str(VERIF))
+                           env=dict(os.environ, PYTHONPATH=REPO_SRC + ":/verif", XPM_VERIF="1"), capture_output=True, text=True, cwd=str(VERIF))
         line = next((l for l in p.stdout.splitlines() if l.startswith("IDS")), None)
         if line is None:
             rep.machinery_failure("schema evolution subprocess failed: " + p.stderr[-400:])
